@@ -6,3 +6,8 @@ open GoSQLXModel
 #print axioms Props.C09.gen_covers
 #print axioms Props.C09.pooled_nodes_clean
 #print axioms Props.C09.gen_pool_put_matches_get
+#print axioms Pool.run_types
+#print axioms Pool.takeTy_perm
+#print axioms Props.C09.pooled_nodes_typed
+#print axioms Props.C09.pool_entry_handed_out_once
+#print axioms Props.C09.pool_growth
